@@ -79,3 +79,20 @@ Definition dependencies (p : list op) : outcome (list N) := deps_loop [1%N] p.
 (* well-formed program: every operand refers to an element that already exists *)
 Definition wf_program (p : list op) : Prop :=
   forall k i j, nth_error p k = Some (i, j) -> (i <= k /\ j <= k)%nat.
+
+(* Shift as the dispatcher runs it.  Go's counter is a 64-bit uint: a shift by 2^63 with a missing
+   operand returns at the first Double.  [shift] converts the amount to a unary counter first, which
+   cannot be executed for such amounts; [shift_go] attempts the first doubling before converting the
+   rest (proofs/ProgramProofs.v: shift_go_eq, step_go_eq show they are the same function). *)
+Definition shift_go (p : list op) (i : Z) (s : N) : list op * outcome Z :=
+  if (s =? 0)%N then (p, Ok i)
+  else match double p i with
+       | (p', Ok next) => shift_loop (N.to_nat (N.pred s)) p' next
+       | (p', e) => (p', e)
+       end.
+
+Definition step_go (p : list op) (c : call) : list op * outcome Z :=
+  match c with
+  | CShift i s => shift_go p i s
+  | _ => step p c
+  end.
